@@ -413,11 +413,14 @@ Inv_Normalize ==
 \* C12: slicing returns exactly the addressed components (caches included)
 Inv_Slice ==
     (hist # <<>> /\ Last.act = "Slice") =>
-      LET o == heap[Last.a.i] n == heap[Last.id] idx == Last.a.idx R == NumR(o) IN
-      /\ NumR(n) = Len(idx)
+      LET o == heap[Last.a.i] n == heap[Last.id] idx == Last.a.idx R == Len(o.Lam) IN
+      /\ Len(n.Lam) = Len(idx)
       /\ \A k \in 1..Len(idx) :
            LET r == (IF idx[k] < 0 THEN idx[k] + R ELSE idx[k]) + 1 IN
-           SameFunctionC(n.Lam[k], n.nu[k], n.lnb[k], o.Lam[r], o.nu[r], o.lnb[r])
+           IF IsCond(o)
+           THEN /\ MEq(n.M[k], o.M[r]) /\ VEq(n.b[k], o.b[r]) /\ MEq(n.Sig[k], o.Sig[r])
+                /\ MEq(n.Lam[k], o.Lam[r]) /\ FEq(n.dSig[k], o.dSig[r])
+           ELSE SameFunctionC(n.Lam[k], n.nu[k], n.lnb[k], o.Lam[r], o.nu[r], o.lnb[r])
 
 \* ------------------------------------------------------------------------
 \* Densities and conditionals: the identities of C05 - C10, C13 on the lattice
